@@ -51,5 +51,5 @@ lines = ['# Seeded changes vs. the quick tier of the checks (written by tools/ru
 for r in rows:
     print('%-50s %-12s %-14s %6.1fs' % r)
     lines.append('| %s | %s | %s | %.1f |' % r)
-if len(sys.argv) == 1 or seeds != [None]:
+if not args:
     open(os.path.join(SEEDED, 'RESULTS.md'), 'w').write('\n'.join(lines) + '\n')
